@@ -73,21 +73,30 @@ def gen_spec(rng, kind=None):
             for f in v["fields"]:
                 f["dbg_ignore"] = rng.random() < 0.5
     return {"kind": kind, "variants": variants, "generic": generic, "vals": vals, "entry": rng.choice(["attr", "derive"]), "copy": copy,
-            "co": co, "split": rng.random() < 0.2, "bound": rng.random() < 0.15,
+            "co": co, "split": rng.random() < 0.2, "bound": rng.choice([False] * 10 + [True, True, "stop", "stop-shared"]),
             "names": rng.choice(["f", "f", "rev"]), "fattr": rng.randrange(3) if rng.random() < 0.2 else None}
 
 
 def type_text(spec, control=False):
     g = "<T>" if spec["generic"] else ""
     tl = {None: "Clone", "before": "Copy, Clone", "after": "Clone, Copy"}[spec.get("copy")]
-    if spec.get("bound"):
+    if spec.get("bound") == "stop":
+        # an explicit list without `..` (the default field bounds are off; nothing else may change)
+        tl = tl.replace("Clone", "Clone(bound(T: ::core::clone::Clone))" if spec["generic"] else "Clone(bound())")
+    elif spec.get("bound") == "stop-shared" and spec.get("copy"):
+        tl = tl.replace("Clone", "Clone(bound(T: ::core::clone::Clone))" if spec["generic"] else "Clone(bound())")
+    elif spec.get("bound") == "stop-shared":
+        pass        # appended below, after every trait of the list
+    elif spec.get("bound"):
         tl = tl.replace("Clone", "Clone(bound(..))")
     if spec.get("co") == "Debug-first":
         tl = "Debug, " + tl
     elif spec.get("co"):
         tl = tl + ", Debug"
     parts = [tl]
-    if spec.get("split") and ", " in tl:
+    if spec.get("bound") == "stop-shared" and not spec.get("copy"):
+        parts = [tl + (", bound(T: ::core::clone::Clone + ::core::fmt::Debug)" if spec["generic"] else ", bound()")]
+    elif spec.get("split") and ", " in tl:
         a, b = tl.split(", ", 1)
         parts = [a, b]
     if spec["entry"] == "attr":
@@ -274,6 +283,17 @@ def core(rng):
                           "variants": [{"style": style, "fields": [{"kind": "rec", "tag": i} for i in range(3)]}], "vals": [(0, 1), (0, 2)]})
             specs.append({"kind": "enum", "generic": False, "entry": "derive" if fattr else "attr", "names": "rev", "fattr": fattr, "variants": [
                 {"style": "unit", "fields": []}, {"style": style, "fields": [{"kind": "rec", "tag": i} for i in range(3)]}], "vals": [(0, 1), (1, 2), (1, 3)]})
+    # explicit bound lists without `..` (per trait / shared), concrete and generic, struct and enum with every pair of values
+    for b in ("stop", "stop-shared"):
+        for entry in ("attr", "derive"):
+            specs.append({"kind": "struct", "generic": False, "entry": entry, "bound": b,
+                          "variants": [{"style": "named", "fields": [{"kind": "rec", "tag": i} for i in range(3)]}], "vals": [(0, 1), (0, 2)]})
+            specs.append({"kind": "enum", "generic": False, "entry": entry, "bound": b, "variants": [
+                {"style": "unit", "fields": []}, {"style": "tuple", "fields": [{"kind": "rec", "tag": 0}, {"kind": "vec", "tag": 1}, {"kind": "rec", "tag": 2}]},
+                {"style": "named", "fields": [{"kind": "rec", "tag": 3}]}], "vals": [(0, 1), (1, 2), (1, 3), (2, 4), (2, 5)]})
+            specs.append({"kind": "enum", "generic": True, "entry": entry, "bound": b, "variants": [
+                {"style": "tuple", "fields": [{"kind": "T", "tag": 0}]}, {"style": "named", "fields": [{"kind": "vecT", "tag": 1}, {"kind": "T", "tag": 2}]}],
+                "vals": [(0, 1), (0, 2), (1, 3), (1, 4)]})
     # more than ten fields (member names / indices whose text order differs from the declaration order)
     for style in ("tuple", "named"):
         specs.append({"kind": "struct", "generic": False, "entry": "attr", "variants": [{"style": style, "fields": [{"kind": "rec", "tag": i} for i in range(12)]}],
